@@ -301,6 +301,8 @@ def rule_r3(ctx, rep):
         # writes to state reachable from self
         fx = eng.fx
         writes = []
+        # a node that this very operation attaches is not part of the tree before the attachment: writes to it do not count
+        incoming = {norm(c) for (_n, _o, c) in insertion_sites(ctx, fi) if c is not None}
         for n in ast.walk(fi.node):
             if isinstance(n, (ast.Assign, ast.AugAssign, ast.Delete)):
                 ts = n.targets if isinstance(n, (ast.Assign, ast.Delete)) else [n.target]
@@ -309,7 +311,7 @@ def rule_r3(ctx, rep):
                         base = x
                         while isinstance(base, (ast.Attribute, ast.Subscript)):
                             base = base.value
-                        if isinstance(base, ast.Name) and base.id == selfp and x is not base:
+                        if isinstance(base, ast.Name) and x is not base and (base.id == selfp or (base.id in fi.params and base.id not in incoming)):
                             writes.append(n)
             if isinstance(n, ast.Call) and isinstance(n.func, ast.Attribute):
                 base = n.func.value
